@@ -154,7 +154,18 @@ def oracle_c14(ctx, desc, f0, spec, src, out, m, label, factor, case):
     probes = spec.probes if spec.probes is not None else np.zeros(spec.n_channels, int)
     pos = spec.positions
     curated = spec.curated
-    Dc = np.asarray(m.sparse_clusters.data, dtype=np.float64)      # cluster waveforms: decided by C08
+    Dc = np.asarray(m.sparse_clusters.data, dtype=np.float64)      # cluster waveforms: decided by C08 ...
+    if curated and case.get('source') != 'merged' and getattr(spec, 'template_ind', None) is None:
+        # ... except where the files determine them uniquely (no count tie, no distance tie): there the export is
+        # judged against the weighted mean of the cluster's templates computed from the files
+        try:
+            Dexp, sure = rt.cluster_waveforms_expected(spec)
+            if Dexp.shape == Dc.shape:
+                Dc = Dc.copy()
+                Dc[sure] = Dexp[sure]
+                ctx.mon('cluster_waveforms_from_files', int(sure.sum()))
+        except Exception:
+            pass
     ncl = Dc.shape[0]
     ncw = min(12, spec.n_channels)
     # ---- waveforms / channels / amps for templates and clusters ----------------------------------------------
